@@ -37,4 +37,11 @@ SCENARIOS = [
          expect_obligations=EO[:2], bounds="ThrowEventSatisfier, 2 definitions, all histories of length 4"),
     dict(name="C14 throw-event counterpart n=3 L=5", entry="VerifC14_Throw3_L5", harness="logic", K=25, reach=["end"], tiers=("thorough",),
          expect_obligations=EO[:2], bounds="ThrowEventSatisfier, 3 definitions, all histories of length 5"),
+    dict(name="C14 parallel-multiple n=3, 2 events from any nested state", entry="VerifC14_From3_L2", harness="logic", K=30, reach=["pre-state", "end"],
+         expect_obligations=EO[:3],
+         bounds="3 definitions; pre-state: any of the 37 families of k <= 3 open chains nested in list order, non-empty, not full (each reachable from the empty satisfier without a completion, see harness); then all histories of length 2"),
+    dict(name="C14 parallel-multiple n=3, 3 events from any nested state", entry="VerifC14_From3_L3", harness="logic", K=30, reach=["pre-state", "end"], tiers=("thorough",),
+         expect_obligations=EO[:3], bounds="as above, histories of length 3 (about 300 s)"),
+    dict(name="C14 parallel-multiple n=3, 4 events from any nested state", entry="VerifC14_From3_L4", harness="logic", K=30, reach=["pre-state", "end"], tiers=("thorough",),
+         expect_obligations=EO[:3], bounds="as above, histories of length 4 (did not close within the thorough budget when written)"),
 ]
